@@ -120,3 +120,122 @@ Proof. intros H. unfold gated. rewrite H. reflexivity. Qed.
 Lemma gated_passed {A} gs l c now (k : loc -> loc * outcome A) l' :
   run_gates gs l c now = (l', None) -> gated gs l c now k = k l'.
 Proof. intros H. unfold gated. rewrite H. reflexivity. Qed.
+
+(** * Reflection over the regenerated table *)
+
+Lemma writers_ok_true : writers_ok = true.
+Proof. vm_compute. reflexivity. Qed.
+Lemma readers_ok_true : readers_ok = true.
+Proof. vm_compute. reflexivity. Qed.
+Lemma capacity_ok_true : capacity_ok = true.
+Proof. vm_compute. reflexivity. Qed.
+Lemma js_ok_true : js_ok = true.
+Proof. vm_compute. reflexivity. Qed.
+Lemma model_matches_source_true : model_matches_source = true.
+Proof. vm_compute. reflexivity. Qed.
+
+Lemma writers_guarded : forall m,
+  In m exported_methods -> mem_str m ungated_helpers = false ->
+  guarded m write_accesses ["gate:Enabled"; "gate:CheckWrite"] = true.
+Proof.
+  intros m Hin Hex. pose proof writers_ok_true as H. unfold writers_ok in H.
+  rewrite forallb_forall in H. specialize (H m Hin). rewrite Hex in H. exact H.
+Qed.
+
+Lemma readers_guarded : forall m,
+  In m exported_methods -> mem_str m ungated_helpers = false -> String.eqb m "EnableRule" = false ->
+  guarded m reveal_accesses ["gate:Enabled"; "gate:CheckRead"] = true.
+Proof.
+  intros m Hin Hex Hen. pose proof readers_ok_true as H. unfold readers_ok in H.
+  rewrite forallb_forall in H. specialize (H m Hin). rewrite Hex, Hen in H. exact H.
+Qed.
+
+Lemma model_gates_are_source_gates : forall m,
+  In m modelled_methods ->
+  list_eqb String.eqb (map gate_name (gates_of m)) (gate_prefix (events_of m)) = true.
+Proof.
+  intros m Hin. pose proof model_matches_source_true as H. unfold model_matches_source in H.
+  rewrite forallb_forall in H. exact (H m Hin).
+Qed.
+
+(** * A refusing gate has no effect *)
+
+Definition nothing_expired (l : loc) (now : Z) : Prop :=
+  forall id fact, alookup id (st_facts (l_state l)) = Some fact -> fact_expired fact now = false.
+
+Lemma upd_state_same l : upd_state l (l_state l) = l.
+Proof. destruct l; reflexivity. Qed.
+
+Lemma st_get_noexp s id now :
+  (forall i f, alookup i (st_facts s) = Some f -> fact_expired f now = false) ->
+  fst (st_get s id now) = s.
+Proof.
+  intros H. unfold st_get. destruct (alookup id (st_facts s)) as [fact|] eqn:E; [|reflexivity].
+  rewrite (H id fact E). reflexivity.
+Qed.
+
+Lemma get_prop_noexp l id prop now :
+  nothing_expired l now -> fst (get_prop l id prop now) = l.
+Proof.
+  intros H. unfold get_prop.
+  pose proof (st_get_noexp (l_state l) (String.append "!" (String.append id (String.append "." prop))) now H) as Hg.
+  destruct (st_get (l_state l) _ now) as [s o] eqn:E. cbn [fst] in Hg. subst s.
+  destruct o; cbn [fst]; apply upd_state_same.
+Qed.
+
+Lemma get_prop_string_noexp l prop now :
+  nothing_expired l now -> fst (get_prop_string l prop now) = l.
+Proof.
+  intros H. unfold get_prop_string. pose proof (get_prop_noexp l "" prop now H) as Hg.
+  destruct (get_prop l "" prop now) as [l' o]. cbn [fst] in Hg. subst l'.
+  destruct o as [[| | |s| |]|]; reflexivity.
+Qed.
+
+Lemma run_gates_noexp gs : forall l c now,
+  nothing_expired l now -> fst (run_gates gs l c now) = l.
+Proof.
+  induction gs as [|g gs IH]; intros l c now H; [reflexivity|].
+  cbn [run_gates].
+  assert (Hstep : forall (l' : loc) (pass : bool) (e : string),
+             l' = l -> fst (if pass then run_gates gs l' c now else (l', Some e)) = l).
+  { intros l' pass e ->. destruct pass; [apply IH; exact H|reflexivity]. }
+  destruct g.
+  - unfold enabled. pose proof (get_prop_string_noexp l "enabled" now H) as Hg.
+    destruct (get_prop_string l "enabled" now) as [l' s]. cbn [fst] in Hg. apply Hstep. exact Hg.
+  - unfold check_write. destruct (l_readonly l); [reflexivity|].
+    pose proof (get_prop_string_noexp l "writeKey" now H) as Hg.
+    destruct (get_prop_string l "writeKey" now) as [l' s]. cbn [fst] in Hg. apply Hstep. exact Hg.
+  - unfold check_read. pose proof (get_prop_string_noexp l "readKey" now H) as Hg.
+    destruct (get_prop_string l "readKey" now) as [l' s]. cbn [fst] in Hg. apply Hstep. exact Hg.
+  - apply Hstep. reflexivity.
+Qed.
+
+(** If a gate refuses, the operation returns the gate's error and the
+    location (facts, indexes, storage, flags) is exactly what it was. *)
+Theorem refused_unchanged_main {A} : forall gs l c now (k : loc -> loc * outcome A) l' e,
+  nothing_expired l now ->
+  run_gates gs l c now = (l', Some e) ->
+  gated gs l c now k = (l, Err e).
+Proof.
+  intros gs l c now k l' e Hne Hrun.
+  pose proof (run_gates_noexp gs l c now Hne) as Hfst. rewrite Hrun in Hfst. cbn [fst] in Hfst. subst l'.
+  apply gated_refused. exact Hrun.
+Qed.
+
+(** The write gate passes exactly for a writable location and a caller whose
+    key matches (or when no key is set). *)
+Lemma check_write_spec l c now :
+  snd (check_write l c now) =
+  negb (l_readonly l) &&
+  (let k := snd (get_prop_string l "writeKey" now) in String.eqb k "" || String.eqb (c_wk c) k).
+Proof.
+  unfold check_write. destruct (l_readonly l); [reflexivity|].
+  destruct (get_prop_string l "writeKey" now) as [l' k]. reflexivity.
+Qed.
+
+Lemma check_read_spec l c now :
+  snd (check_read l c now) =
+  (let k := snd (get_prop_string l "readKey" now) in String.eqb k "" || String.eqb (c_rk c) k).
+Proof.
+  unfold check_read. destruct (get_prop_string l "readKey" now) as [l' k]. reflexivity.
+Qed.
